@@ -142,9 +142,10 @@ class ListV:
 class RecV:
     """Immutable value record (dataclass instance treated by value; see DESIGN D.5)."""
 
-    def __init__(self, cls, fields):
+    def __init__(self, cls, fields, desc=None):
         self.cls = cls
         self.fields = fields
+        self.desc = desc
 
     def __repr__(self):
         return f"RecV({self.cls}, {self.fields})"
